@@ -33,6 +33,8 @@ pub fn expand_expr(expr: pr::Expr) -> Result<pl::Expr> {
             named_args: v
                 .named_args
                 .into_iter()
+                // in a fixed order, so that the error of the same argument is reported every time
+                .sorted_by(|a, b| a.0.cmp(&b.0))
                 .map(|(k, v)| -> Result<_> { Ok((k, expand_expr(v)?)) })
                 .try_collect()?,
         }),
